@@ -29,7 +29,7 @@ Open Scope Z_scope.
 
 def gen_case(rng: random.Random, tier: str):
     xy = rng.random() < 0.25
-    focus = rng.choice([None, None, "eom", "eom", "local", "local", "conflict", "phase"])
+    focus = rng.choice([None, "eom", "eom", "eom", "local", "local", "conflict", "phase"])
     dev = seqgen.gen_device(rng, xy=xy, focus=focus)
     if xy:
         # only microwave channels can be declared next to each other in XY mode
@@ -70,7 +70,7 @@ def gen_case(rng: random.Random, tier: str):
             w[0] = 1.0
         maps.append(w)
     case = dict(device=dev, register=reg, maps=maps, ops=[])
-    n_ops = rng.randint(3, 14) if tier == "quick" else rng.randint(3, 30)
+    n_ops = rng.randint(5, 22) if tier == "quick" else rng.randint(5, 36)
     with warnings.catch_warnings():
         warnings.simplefilter("ignore")
         ops = seqgen.gen_ops(rng, case, n_ops, 0.05, 0.02, focus=focus)
@@ -232,7 +232,7 @@ class C06(PropCheck):
     id = "C06"
     props_file = "Props/C06.v"
     shard = 12
-    quick_cases = 160
+    quick_cases = 300
     thorough_cases = 1500
     assumptions = [
         "waveform samples, fall times (FFT modulation) and the is-detuned-delay flag of every pulse enter the model as oracle inputs read from the implementation's objects",
